@@ -3,6 +3,7 @@ package gen
 import (
 	"fmt"
 	"math/rand"
+	"strings"
 
 	"storj.io/picobuf/verifharness/schema"
 )
@@ -208,6 +209,9 @@ func RandomSchema(r *rand.Rand, idx int) *schema.File {
 			oneofs = append(oneofs, "oa")
 			if r.Intn(3) == 0 {
 				oneofs = append(oneofs, "ob")
+				if r.Intn(2) == 0 {
+					oneofs = append(oneofs, "oc")
+				}
 			}
 		}
 		for fi := 0; fi < nf; fi++ {
@@ -277,6 +281,21 @@ func RandomSchema(r *rand.Rand, idx int) *schema.File {
 			}
 		}
 		m.Fields = ordered
+		// a oneof member named like a message declared inside this one: the wrapper type name
+		// <Msg>_<Field> is then taken by the nested message (protogen renames the wrapper)
+		for ci := mi + 1; ci < nm; ci++ {
+			if parents[ci] != names[mi] || r.Intn(2) != 0 {
+				continue
+			}
+			short := strings.ToLower(strings.TrimPrefix(names[ci], names[mi]+"_"))
+			for i := range m.Fields {
+				if m.Fields[i].Oneof != "" {
+					m.Fields[i].Name = short
+					break
+				}
+			}
+			break
+		}
 		f.Messages = append(f.Messages, m)
 	}
 	return f
